@@ -152,7 +152,7 @@ def run_given(rec, seed, n, strategies, fn, shrink=True, check_name=""):
         _engine.MAX_SHRINKING_SECONDS = shrink_budget
     except Exception:
         pass
-    fail_state = {"first": None, "failed": set()}
+    fail_state = {"first": None, "failed": set(), "violation": None, "args": None}
 
     @hypothesis.seed(seed)
     @settings(max_examples=n, database=None, deadline=None, derandomize=False, report_multiple_bugs=False,
@@ -169,9 +169,10 @@ def run_given(rec, seed, n, strategies, fn, shrink=True, check_name=""):
         last_args.update(kw)
         try:
             fn(rec, **kw)
-        except Violation:
+        except Violation as v:
             if fail_state["first"] is None:
                 fail_state["first"] = time.time()
+                fail_state["violation"], fail_state["args"] = v, dict(kw)
             fail_state["failed"].add(repr(kw))
             raise
         except HarnessError:
@@ -188,10 +189,12 @@ def run_given(rec, seed, n, strategies, fn, shrink=True, check_name=""):
             if sig in rec.known:
                 rec.fail(sig, msg, kw)
                 return
+            v = Violation(sig, msg, dict(kw))
             if fail_state["first"] is None:
                 fail_state["first"] = time.time()
+                fail_state["violation"], fail_state["args"] = v, dict(kw)
             fail_state["failed"].add(repr(kw))
-            raise Violation(sig, msg, dict(kw)) from exc
+            raise v from exc
 
     try:
         test()
@@ -199,6 +202,20 @@ def run_given(rec, seed, n, strategies, fn, shrink=True, check_name=""):
         args = v.args_dict if v.args_dict is not None else dict(last_args)
         rec.violation = {"check": check_name, "signature": v.signature, "message": v.message,
                          "args": jsonable(args), "seed": seed}
+    except BaseException as exc:
+        # Hypothesis reports a failure that does not reproduce identically on its final replay as "flaky".  The code
+        # under test is not a pure function of the drawn case where it iterates over sets of objects hashed by
+        # address (cell systems): the failure that was observed is real and is reported with the first failing case.
+        if fail_state["violation"] is not None and type(exc).__name__ in ("FlakyFailure", "Flaky", "ExceptionGroup",
+                                                                           "FlakyReplay", "BaseExceptionGroup"):
+            v = fail_state["violation"]
+            args = v.args_dict if v.args_dict is not None else fail_state["args"]
+            rec.violation = {"check": check_name, "signature": v.signature, "message": v.message,
+                             "args": jsonable(args), "seed": seed, "note": "did not reproduce identically on replay"}
+            rec.notes.append("a failure did not reproduce identically when Hypothesis replayed it (%s)"
+                             % type(exc).__name__)
+        else:
+            raise
 
 
 def _shard_job(job):
